@@ -1,2 +1,51 @@
 //! Read-only probe (child module of `ntp-proto/src/source.rs`), compiled only under
-//! `--cfg pendulum_project_ntpd_rs_verif`. Owned by the world that needs it; must never mutate state.
+//! `--cfg pendulum_project_ntpd_rs_verif`. Owned by world w1x (NTS client, stratum/loop, Bloom
+//! transfer). `verif_x_view` never mutates; `verif_x_with_bloom_chunk` is a construction-time
+//! configuration knob (the chunk size is hard-coded to 16 in `NtpSource::new`).
+
+use super::{NtpSource, SourceController};
+use crate::packet::v5::server_reference_id::RemoteBloomFilter;
+use crate::verif::system::XSourceView;
+
+impl<Controller: SourceController> NtpSource<Controller> {
+    pub fn verif_x_view(&self) -> XSourceView {
+        XSourceView {
+            nts: self.nts.is_some(),
+            stash: self
+                .nts
+                .as_ref()
+                .map(|n| n.cookies.verif_contents())
+                .unwrap_or_default(),
+            remote_min_poll: self.remote_min_poll_interval.as_log(),
+            last_poll: self.last_poll_interval.as_log(),
+            protocol_version: self.protocol_version,
+            reach: self.reach.0,
+            tries: self.tries,
+            have_deny_rstr: self.have_deny_rstr_response,
+            pending: self.current_request_identifier.is_some(),
+            pending_valid: self
+                .current_request_identifier
+                .map(|(_, until)| until >= tokio::time::Instant::now())
+                .unwrap_or(false),
+            stratum: self.stratum,
+            reference_id: self.reference_id.to_bytes(),
+            source_id: self.source_id.to_bytes(),
+            bloom: self.bloom_filter.verif_view(),
+        }
+    }
+
+    /// Replace the (still untouched) remote Bloom filter by one with another chunk size.
+    /// Only legal before the first poll; returns false (and changes nothing) otherwise.
+    pub fn verif_x_with_bloom_chunk(&mut self, chunk: u16) -> bool {
+        if self.tries != 0 || self.current_request_identifier.is_some() {
+            return false;
+        }
+        match RemoteBloomFilter::new(chunk) {
+            Some(f) => {
+                self.bloom_filter = f;
+                true
+            }
+            None => false,
+        }
+    }
+}
